@@ -191,8 +191,15 @@ func (v *Verifier) VerifyFunc(fc *FuncContract) {
 	if ex.Aborted != "" {
 		v.Obls = append(v.Obls, &Obligation{Name: obligationName(fc, "explored"), Func: fc.Key, Label: "explored", Kind: "ensures", Goal: TFalse, Notes: []string{ex.Aborted}, Status: "undecided"})
 	}
+	unevaluable := map[string]bool{}
 	for _, le := range ex.LoopErrors {
 		v.Errors = append(v.Errors, fc.Key+" "+le)
+		name := obligationName(fc, strings.SplitN(le, ":", 2)[0])
+		if !unevaluable[name] {
+			unevaluable[name] = true
+			v.Obls = append(v.Obls, &Obligation{Name: name, Func: fc.Key, Label: "loop_invariant", Kind: "ensures", Goal: TFalse, Status: "undecided",
+				Notes: []string{"the invariant does not evaluate against this code: " + le}, Trace: []string{"the invariant does not evaluate against this code: " + le}})
+		}
 	}
 	// loops without an invariant: the executions beyond the unrolling bound were NOT
 	// explored. One "bounded" pseudo-obligation per such loop keeps that visible
@@ -292,6 +299,13 @@ func (v *Verifier) VerifyFunc(fc *FuncContract) {
 				}
 				v.Errors = append(v.Errors, fmt.Sprintf("%s/%s (line %d): %v", fc.Key, c.Label, c.Line, err))
 				rep.EvalError = err.Error()
+				// an obligation that cannot even be stated against the current code is not
+				// discharged: reported once per clause (no failing input can be given)
+				if !unevaluable[name] {
+					unevaluable[name] = true
+					v.Obls = append(v.Obls, &Obligation{Name: name, Func: fc.Key, Label: c.Label, Kind: "ensures", Path: i, Goal: TFalse, Status: "undecided",
+						Notes: []string{"the clause does not evaluate against this code: " + err.Error()}, Trace: []string{"the clause does not evaluate against this code: " + err.Error()}})
+				}
 				continue
 			}
 			hyps := append(append(append([]*Term(nil), o.St.PC...), env.scratch.Facts...), ex.GlobalFacts...)
